@@ -108,8 +108,13 @@ func (d *Disk) rel(path string) (string, bool) {
 	return "", false
 }
 
+var traceIO = os.Getenv("VERIF_TRACE_IO") != ""
+
 func (d *Disk) record(op Op) {
 	d.ops = append(d.ops, op)
+	if traceIO {
+		d.r.Logf("io %s %s off=%d len=%d %s%d", op.Kind, op.Path, op.Off, len(op.Data), op.Tag, op.Val)
+	}
 }
 
 func (d *Disk) install(h *simhook.Hooks) {
